@@ -41,7 +41,7 @@ def apply(op, root, out):
             os.mkdir(R(op[1] + "/" + op[2]))
         elif k == "rmdir":
             os.rmdir(R(op[1]))
-        elif k == "rename":
+        elif k in ("rename", "rename-split"):
             os.rename(R(op[1]), R(op[2]))
         elif k == "moveout":
             os.rename(R(op[1]), O(op[1]))
@@ -78,7 +78,10 @@ def dirs_under(root):
     return out
 
 
-def run_history(ops, recursive=True, inject=None, small=False):
+def run_history(ops, recursive=True, inject=None, small=False, batched=False):
+    """batched: the reader is slow - operations the pacing condition allows back to back (a rename right after the
+    directory arrived; file operations) are issued without letting the reader drain in between, so their records arrive in
+    one read batch (the statement quantifies over all timings of the operations relative to the reader thread)"""
     SMALL[0] = small
     base = tempfile.mkdtemp(prefix="c02b")
     root, out = os.path.join(base, "root"), os.path.join(base, "out")
@@ -102,16 +105,43 @@ def run_history(ops, recursive=True, inject=None, small=False):
                 return real_add(fd, path, mask)
             ic.inotify_add_watch = limited
         moved_in = set()
+        arrived = None   # top-level directory the previous operation created / renamed to / moved in
+        prev_kind = None
         for op in ops:
-            if not apply(op, root, out):
+            if batched:
+                # back to back within the statement's pacing condition: "a directory may be renamed again right after it
+                # arrived" (target name unused) and "file operations may follow each other without limit"; everything else
+                # waits for the reader to drain
+                chained = (op[0] == "rename" and arrived is not None and op[1] == arrived and not os.path.lexists(os.path.join(root, op[2]))) or (op[0] == "touch" and prev_kind == "touch")
+                if not chained:
+                    try:
+                        drain(ino)
+                    except Exception as e:
+                        problems.append(f"before {op}: read_events raised {type(e).__name__}: {e}")
+                        return problems, known
+            SMALL[0] = small
+            ok = apply(op, root, out)
+            if op[0] == "rename-split":
+                SMALL[0] = True    # the two halves of THIS rename are read by two read_events() calls (timing of the reader)
+            prev_kind = op[0] if ok else None
+            arrived = (op[1] if op[0] in ("mkdir", "movein") else op[2] if op[0] in ("rename", "rename-split") else None) if ok else None
+            if not ok:
                 continue
             if op[0] == "movein":
                 for d0 in dirs_under(os.path.join(root, op[1])):
                     moved_in.add(os.stat(d0).st_ino)
+            if batched:
+                continue
             try:
                 drain(ino)
             except Exception as e:
                 problems.append(f"after {op}: read_events raised {type(e).__name__}: {e}")
+                return problems, known
+        if batched:
+            try:
+                drain(ino)
+            except Exception as e:
+                problems.append(f"history {ops} read as one batch: read_events raised {type(e).__name__}: {e}")
                 return problems, known
         ic.inotify_add_watch = real_add
         # ---- probes (a directory whose own watch the kernel refused is legitimately unwatched; its siblings are not)
@@ -138,7 +168,7 @@ def run_history(ops, recursive=True, inject=None, small=False):
                         under_moved_in = True
                     anc = os.path.dirname(anc)
                 msg = f"history {ops}: a file created in {os.path.relpath(d, base)} was not reported" + (f" (reported as {wrong[0].src_path!r})" if wrong else "")
-                (known if (under_moved_in and not wrong) else problems).append(msg)
+                problems.append(msg + (" (the directory, or an ancestor, was moved in from outside)" if under_moved_in else ""))
             if not expect and (hit or wrong) and d != root:
                 problems.append(f"non-recursive watch reported a change inside {os.path.relpath(d, base)}")
             if wrong and expect:
@@ -167,13 +197,17 @@ NAMED = {
     "sibling whose name extends the renamed directory": [("mkdir", "a"), ("mkdir", "a2"), ("mkdir2", "a2", "b"), ("rename", "a", "b"), ("rename", "a2", "a")],
     "descendant path repeats the renamed directory's own path": [("mkdir", "a"), ("mkabs", "a"), ("rename", "a", "b")],
     "nested rename chain": [("mkdir", "a"), ("mkdir2", "a", "b"), ("rename", "a", "b"), ("rename", "b", "a"), ("mkdir2", "a", "a")],
+    "replace an empty directory, rename again, re-create the old name and rename it": [("mkdir", "a"), ("mkdir2", "a", "b"), ("mkdir", "b"), ("rename", "a", "b"), ("rename", "b", "a2"), ("mkdir", "b"), ("rename", "b", "a")],
+    "renamed, old name re-created and renamed away at once": [("mkdir", "a"), ("rename", "a", "b"), ("mkdir", "a"), ("rename", "a", "a2")],
+    "rename read in two halves, old name re-created and renamed away at once": [("mkdir", "a"), ("rename-split", "a", "b"), ("mkdir", "a"), ("rename", "a", "a2")],
+    "moved in, renamed at once, old name re-used": [("movein", "a"), ("rename", "a", "b"), ("mkdir", "a"), ("rename", "a", "a2")],
 }
 
 
 def main():
     if REPLAY is not None:
         c = REPLAY
-        pr, kn = run_history([tuple(o) for o in c["ops"]], c.get("recursive", True), tuple(c["inject"]) if c.get("inject") else None, c.get("small", False))
+        pr, kn = run_history([tuple(o) for o in c["ops"]], c.get("recursive", True), tuple(c["inject"]) if c.get("inject") else None, c.get("small", False), c.get("batched", False))
         replay_result(bool(pr if c.get("expect") != "known" else kn), (pr or kn)[:2])
     L = 3 if TIER == "quick" else 4
     bat = Battery({"names": NAMES + ["pre", "a2"], "history length": L, "operations": "mkdir, nested mkdir, rmdir, rename, move out, move in, remove moved-out, touch", "pacing": "reader drained after every operation", "probes": "every directory of the final tree",
@@ -200,6 +234,14 @@ def main():
         pr, kn = run_history(list(ops), True, None, True)
         if pr:
             bat.fail(f"{WHICH}.history(one record per read)", pr[0], {"ops": [list(o) for o in ops], "recursive": True, "small": True, "problems": pr[:2]}, "Inotify.read_events")
+    # back-to-back operations within the pacing condition (mkdir immediately followed by rename; rename chains; move in + rename)
+    b2b = [tuple(v) for v in NAMED.values()] + [h for h in hs if any(h[i][0] == "rename" and h[i - 1][0] in ("mkdir", "rename", "movein") and h[i - 1][-1] == h[i][1] for i in range(1, len(h)))]
+    for ops in b2b[: (80 if TIER == "quick" else 1500)]:
+        bat.case(hash((ops, "back-to-back")), desc={"ops": [list(o) for o in ops], "recursive": True, "timing": "rename right after arrival without draining"})
+        for small in (False, True):
+            pr, kn = run_history(list(ops), True, None, small, True)
+            if pr:
+                bat.fail(f"{WHICH}.history(back to back{', one record per read' if small else ''})", pr[0], {"ops": [list(o) for o in ops], "recursive": True, "batched": True, "small": small, "problems": pr[:2]}, "Inotify.read_events")
     burst = [("mkdir", "a"), ("mkdir2", "a", "b"), ("mkdir", "b"), ("mkdir2", "b", "a"), ("touch", "a"), ("burst", "c")]
     for pos in (1, 2, 3, 4, 5, 6):
         for err in (errno.ENOSPC, errno.ENOENT):
